@@ -75,6 +75,9 @@ def build_pair(tape, opts, max_msgs=6, apis=("deferred", "delegate"),
         cb = code_ops(tape, mode, False, "A")
     na = tape.choose(max_msgs + 1, "na")
     nb = tape.choose(max_msgs + 1, "nb")
+    if opts.get("min_msgs"):
+        # long conversations: phase numbers with several digits
+        na, nb = max(na, opts["min_msgs"]), max(nb, opts["min_msgs"])
     sa = [("send", gen_payload(tape, i, "A")) for i in range(na)]
     sb = [("send", gen_payload(tape, i, "B")) for i in range(nb)]
     if dil:
